@@ -542,6 +542,7 @@ package node_info
 //@   ensures [usedCpuMem] result == nil ==> ni.Used.milliCpu == old(ni.Used.milliCpu) + ti.AcceptedResource.milliCpu && ni.Used.memory == old(ni.Used.memory) + ti.AcceptedResource.memory
 //@   ensures [usedGpus] result == nil ==> ni.Used.gpus == old(ni.Used.gpus) + nodeChargedGpus(ti)
 //@   ensures [otherPods] forall k common_info.PodID :: k != pod_info.podKeyOf(ti.Pod) ==> ni.PodInfos[k] == old(ni.PodInfos[k]) && (k in ni.PodInfos <==> old(k in ni.PodInfos))
+//@   ensures [stmt2-recorded] result == nil ==> pod_info.podKeyOf(ti.Pod) in ni.PodInfos && ni.PodInfos[pod_info.podKeyOf(ti.Pod)].Status == ti.Status && sameGroups(ni.PodInfos[pod_info.podKeyOf(ti.Pod)], ti)   // added by helper "stmt2": the re-recorded copy carries the task's status and (new) GPU groups
 //@   ensures nodeWF(ni) && podsWF(ni) && taskWF(ti)
 //@ end
 
@@ -584,8 +585,15 @@ package node_info
 //@   ensures [relCpu] result == nil ==> ni.Releasing.milliCpu == old(ni.Releasing.milliCpu) - old(relPart(storedTask(ni, ti), storedTask(ni, ti).AcceptedResource.milliCpu)) + relPart(ti, ti.AcceptedResource.milliCpu)
 //@   ensures [usedGpus] result == nil ==> ni.Used.gpus == old(ni.Used.gpus) - old(nodeChargedGpus(storedTask(ni, ti))) + nodeChargedGpus(ti)
 //@   ensures [idleGpus] result == nil && old(storedTask(ni, ti).ResourceReceivedType) != "Fraction" && ti.ResourceReceivedType != "Fraction" ==> ni.Idle.gpus == old(ni.Idle.gpus) + old(idlePart(storedTask(ni, ti), nodeChargedGpus(storedTask(ni, ti)))) - idlePart(ti, nodeChargedGpus(ti))
+//@   ensures [stmt2-recordedGroups] result == nil ==> sameGroups(storedTask(ni, ti), ti)   // added by helper "stmt2"
+//@   ensures [stmt2-failedForgets] result != nil ==> !(pod_info.podKeyOf(ti.Pod) in ni.PodInfos)   // added by helper "stmt2": a failed update (pod not recorded, or pod-affinity error of RemoveTask) leaves no record
 //@   ensures nodeWF(ni) && podsWF(ni) && taskWF(ti)
 //@ end
+
+// ---- added by helper "stmt2" ----
+// C13/C02: the copy of a pod recorded on a node carries the GPU groups of the task handed to AddTask / UpdateTask (the
+// clone shares the slice); the node's per-group shared-GPU bookkeeping is charged from that copy
+//@ define sameGroups(a *pod_info.PodInfo, b *pod_info.PodInfo) bool = a.GPUGroups == b.GPUGroups
 
 // ---- added by helper "cache" ----
 // Snapshot construction of a node and of its pods (cluster_info.Snapshot): C14/C01 establish, C12 charge, C10 total.
